@@ -34,7 +34,7 @@ func lockHeldAt(g *an.G, info *types.Info, l an.Loc, mu *types.Var, locks ...str
 }
 
 func c30(p *an.Prog, r *an.R, tier string) {
-	r.Explanation = "C30 (structural clauses): every access to the queue's items map, heap and sequence counter happens under the queue mutex (directly or because every caller holds it); the heap is modified only through container/heap; heap.Fix/Remove are applied only to items known to be on the heap at their recorded index and heap.Push only to items known to be off it; pqueue.Swap/Push/Pop keep the recorded index in step; every Push gets a fresh sequence number and is gated by the failure backoff; a change of a priority-relevant field of an item that may be on the heap is followed by heap.Fix; inside loops over the items map entries are looked up and deleted by the key they are stored under; the priority comparison is lexicographic over (indexed, failed, seq) with a strict final comparison. Does NOT decide the priority-queue behaviour over histories."
+	r.Explanation = "C30 (structural clauses): every access to the queue's items map, heap and sequence counter happens under the queue mutex (directly or because every caller holds it); the heap is modified only through container/heap; heap.Fix/Remove are applied only to items known to be on the heap at their recorded index and heap.Push only to items known to be off it; pqueue.Swap/Push/Pop keep the recorded index in step; every Push gets a fresh sequence number and is gated by the failure backoff; a change of a priority-relevant field of an item that may be on the heap is followed by heap.Fix; inside loops over the items map entries are looked up and deleted by the key they are stored under; the priority comparison is lexicographic over (indexed, failed, seq) with a strict final comparison. (R7) after backoff.Fail the item leaves the heap on every path unless it is not on it. Does NOT decide the priority-queue behaviour over histories."
 	r.Rule("C30.R1", "lockset: every access to Queue.items/pq/seq is under Queue.mu, or in a helper all of whose callers hold it")
 	r.Rule("C30.R2", "heap discipline: Queue.pq is written only by container/heap (no direct assignment outside pqueue's methods); heap.Fix/Remove(&q.pq, i) only with i == item.heapIdx under item.heapIdx >= 0; heap.Push only under item.heapIdx < 0; pqueue.Swap/Push/Pop store the new position (Pop stores -1)")
 	r.Rule("C30.R3", "every heap.Push is preceded by q.seq++ and item.seq = q.seq and guarded by backoff.Allow")
